@@ -749,6 +749,10 @@ def compose_dec_enc(dec, enc):
 
 
 # ---------------------------------------------------------------------------------------------------------------
+def pname(ph):
+    return re.sub(r"(\.i\d*)+$", "", ph.get("name", str(ph["id"])))
+
+
 def loop_transfer(prog, f, header, body, loop_paths):
     """per acyclic path through one iteration of the loop: {target location: (frozenset of source atoms, const)}
     over byte-addressed locals ('L', name, byte, bit), elements of parameter arrays ('E', param, byte, bit) and the
@@ -759,7 +763,8 @@ def loop_transfer(prog, f, header, body, loop_paths):
     names = {}
     for i in f.all_insts():
         if i["op"] == "alloca":
-            names[i["id"]] = i.get("name") or ("#%d" % i["id"])
+            # inlined copies are called tk.i, tk.i12 ...: the source-level name is what is comparable
+            names[i["id"]] = re.sub(r"(\.i\d*)+$", "", i.get("name") or ("#%d" % i["id"]))
     for (path, kind, tgt) in loop_paths(f, header, body):
         if kind != "latch":
             continue
@@ -782,7 +787,7 @@ def loop_transfer(prog, f, header, body, loop_paths):
         for ph in hphis:
             sh = shape(ph["type"])
             if sh:
-                I.phi_vals[ph["id"]] = ("b", [V.atom(("P", ph.get("name", str(ph["id"])), b)) for b in range(sh[0] * sh[1])])
+                I.phi_vals[ph["id"]] = ("b", [V.atom(("P", pname(ph), b)) for b in range(sh[0] * sh[1])])
             elif ph["type"].endswith("*"):
                 a = am.of(["i", ph["id"]])
                 I.phi_vals[ph["id"]] = ("p", ("elem", a.root[1] if a is not None and a.root[0] == "arg" else -1), 0)
@@ -822,7 +827,7 @@ def loop_transfer(prog, f, header, body, loop_paths):
                 if pb == path[-1]:
                     v = I.val(fr, x)
             for b in range(sh[0] * sh[1]):
-                loc = ("P", ph.get("name", str(ph["id"])), b)
+                loc = ("P", pname(ph), b)
                 form = v[1][b] if v is not None and v[0] == "b" and b < len(v[1]) else TOP
                 res[loc] = enc(form)
         res["cuts"] = len(I.cuts)
